@@ -127,7 +127,6 @@ def _mono_mul(m1, m2):
 
 class Sym:
     __slots__ = ("p", "_key", "_z3")
-    __array_priority__ = 1000.0  # numpy defers binary ops to us only through object arrays
 
     def __init__(self, p=None):
         self.p = p if p is not None else {}
@@ -412,6 +411,12 @@ class Sym:
     def fabs(self):
         if self.is_const():
             return Sym.const(abs(self.const_value()))
+        from . import ctx as _ctx
+
+        if _ctx.decide(BoolSym.cmp("le", -self)) is True:  # self >= 0 under the current facts
+            return self
+        if _ctx.decide(BoolSym.cmp("le", self)) is True:
+            return -self
         k = self.key()
         # canonical sign: abs(-q) == abs(q)
         if k[0][1] < 0:
@@ -839,6 +844,11 @@ def ite(c, a, b) -> Sym:
         return a if c.value() else b
     if a.key() == b.key():
         return a
+    from . import ctx as _ctx
+
+    d = _ctx.decide(c)  # entailed by the facts of the current path / case scope
+    if d is not None:
+        return a if d else b
     sort = "int" if a.is_int_sorted() and b.is_int_sorted() else "real"
     return Sym.atom(mk_atom("ite", (c.key(), a.key(), b.key()), sort))
 
